@@ -30,11 +30,102 @@ from .simproc import SimProcess, pickle_copy
 from .chooser import Chooser  # noqa: F401
 
 
+def spawn_copy(obj):
+    """what a worker started with the spawn / forkserver start method receives: a pickled copy in which every torch tensor
+    SHARES its memory with the parent's tensor (torch's ForkingPickler reductions move tensor storages into shared memory and
+    hand every child a mapping of the same segment); numpy arrays and everything else are private copies"""
+    import io
+    import pickle
+    table = []
+
+    class P(pickle.Pickler):
+        def persistent_id(self, o):
+            if type(o) is torch.Tensor and o.device.type == "cpu" and not o.requires_grad:
+                table.append(o)
+                return len(table) - 1
+            return None
+
+    class U(pickle.Unpickler):
+        def persistent_load(self, pid):
+            return table[pid].detach()  # a new tensor object over the same storage
+
+    buf = io.BytesIO()
+    P(buf, protocol=pickle.HIGHEST_PROTOCOL).dump(obj)
+    buf.seek(0)
+    return U(buf).load(), len(table)
+
+
+class Preempted(BaseException):
+    pass
+
+
+class _WorkerTask:
+    """one batch being fetched by one worker, in a thread of its own that only runs while it holds the baton; library
+    function calls are pre-emption points (sys.settrace 'call' events of frames below the repository), the loader's
+    pre-emption stream decides at each of them whether the worker loses the CPU"""
+
+    def __init__(self, loader_cls, worker, idxs, probe, repo_prefix):
+        import threading
+        self.worker = worker
+        self.go = threading.Semaphore(0)
+        self.back = threading.Semaphore(0)
+        self.done = False
+        self.result = None
+        self.exc = None
+        self.switches = 0
+        rng = loader_cls._preempt_rng
+        rate = loader_cls.preempt["rate"]
+
+        def tracer(frame, event, arg):
+            if event == "call" and frame.f_code.co_filename.startswith(repo_prefix) and rng.random() < rate:
+                self.switches += 1
+                self._cm.__exit__(None, None, None)
+                self.back.release()
+                self.go.acquire()
+                self._cm = worker.proc.on_cpu()
+                self._cm.__enter__()
+            return None
+
+        def body():
+            import sys
+            self.go.acquire()
+            self._cm = worker.proc.on_cpu()
+            self._cm.__enter__()
+            sys.settrace(tracer)
+            try:
+                self.result = worker.fetcher.fetch(idxs)
+                sys.settrace(None)
+                if probe is not None:
+                    probe(worker)
+            except BaseException as e:  # noqa
+                sys.settrace(None)
+                self.exc = e
+            finally:
+                sys.settrace(None)
+                self._cm.__exit__(None, None, None)
+                self.done = True
+                self.back.release()
+
+        self.thread = threading.Thread(target=body, name=f"simworker-{worker.wid}", daemon=True)
+        self.thread.start()
+
+    def step(self):
+        """run until the next pre-emption or completion; True when the batch is finished"""
+        self.go.release()
+        self.back.acquire()
+        if self.done:
+            self.thread.join(timeout=10)
+        return self.done
+
+
 class SimWorker:
     def __init__(self, loader, wid, base_seed, amb_seed):
         self.wid = wid
         self.seed = base_seed + wid
-        self.dataset, self.collate_fn, init_fn = pickle_copy((loader.dataset, loader.collate_fn, loader.init_fn))
+        if getattr(type(loader), "start_method", "fork") == "spawn":
+            (self.dataset, self.collate_fn, init_fn), self.shared_tensors = spawn_copy((loader.dataset, loader.collate_fn, loader.init_fn))
+        else:
+            self.dataset, self.collate_fn, init_fn = pickle_copy((loader.dataset, loader.collate_fn, loader.init_fn))
         wi = tw.WorkerInfo(id=wid, num_workers=loader.K, seed=self.seed, dataset=self.dataset)
         self.proc = SimProcess(f"worker{wid}", amb_seed, worker_info=wi)
         with self.proc.on_cpu():
@@ -67,6 +158,9 @@ class SimDataLoader:
     post_batch_probe = None
     amb_seed = 0
     created = None  # list of created loaders (for inspection)
+    start_method = "fork"  # "spawn": tensors reachable from the dataset are shared between the parent and all workers
+    preempt = None  # dict(seed=..., rate=...): workers lose the CPU inside a batch, at library function calls
+    switches = 0
 
     def __init__(self, dataset, batch_size=1, shuffle=False, sampler=None, batch_sampler=None, num_workers=0,
                  collate_fn=None, pin_memory=False, drop_last=False, worker_init_fn=None, prefetch_factor=None,
@@ -126,6 +220,45 @@ class SimDataLoader:
 
         for _ in range(self.prefetch * self.K):
             put()
+        if cls.preempt:
+            import os
+            cls._preempt_rng = random.Random(f"preempt/{cls.preempt['seed']}/{self.iterations}")
+            repo_prefix = os.path.realpath(os.environ.get("VERIF_REPO", "/repo")) + os.sep
+            running = {}  # worker -> (batch index, task)
+            try:
+                while rcvd < send:
+                    while True:
+                        options = [w for w in range(self.K) if queues[w] or w in running]
+                        if rcvd in done:
+                            options = ["deliver"] + options
+                        pick = chooser.choose(options)
+                        if pick == "deliver":
+                            break
+                        if pick not in running:
+                            bi, idxs = queues[pick].pop(0)
+                            running[pick] = (bi, _WorkerTask(cls, self.workers[pick], idxs, cls.post_batch_probe, repo_prefix))
+                            if trace is not None:
+                                trace.append([pick, bi])
+                        elif trace is not None:
+                            trace.append([pick, running[pick][0], "resume"])
+                        bi, task = running[pick]
+                        if task.step():
+                            del running[pick]
+                            cls.switches += task.switches
+                            if task.exc is not None:
+                                raise task.exc
+                            done[bi] = task.result
+                    out = done.pop(rcvd)
+                    rcvd += 1
+                    put()
+                    yield out
+            finally:
+                # abandoned iteration / error: let suspended workers finish (nobody looks at their results)
+                for w, (bi, task) in list(running.items()):
+                    for _ in range(100000):
+                        if task.step():
+                            break
+            return
         while rcvd < send:
             while True:
                 options = [w for w in range(self.K) if queues[w]]
@@ -208,6 +341,22 @@ def stub_validation(n_configs, seed):
             failures.append(dict(K=K, batch_size=bs, n=n, error=str(e)[:200]))
     return dict(configs_compared_with_real_multiprocess_DataLoader=compared, batches_compared=batches, mismatches=len(failures),
                 examples=failures[:2])
+
+
+def spawn_model_validation(timeout=600):
+    """run simkit/spawn_probe.py in a process of its own (the spawn start method re-imports the main module)"""
+    import json
+    import os
+    import subprocess
+    import sys
+    script = os.path.join(os.path.dirname(os.path.abspath(__file__)), "spawn_probe.py")
+    p = subprocess.run([sys.executable, "-B", script], capture_output=True, text=True, timeout=timeout)
+    for line in p.stdout.splitlines():
+        if line.startswith("SPAWN-PROBE "):
+            res = json.loads(line[len("SPAWN-PROBE "):])
+            assert res["agree"], f"spawn/fork sharing model differs from the real DataLoader: {res}"
+            return res
+    raise AssertionError("spawn probe produced no result: " + (p.stdout + p.stderr)[-400:])
 
 
 from contextlib import contextmanager
